@@ -31,7 +31,7 @@ chk("C05", "E-prod", PROD,
     "Finite families built around the branch points; refint trusted, cross-checked against Python pow/gcd.",
     "DESIGN.md 4/C05")
 chk("C06", "E-prod", PROD,
-    "Output: every value of the stated families x every radix 2..=36 (text) and 2..=256 (digit vectors) must be canonical syntax and evaluate by Horner (refint) to the value and parse back; 224 literal format specs x the 5 formatter traits the property names (Debug is run and counted, not required) against a padding reference validated against i128. Input: every string up to length 5 over a 12-symbol alphabet (and byte strings incl. invalid UTF-8) x 6 radices x both types x 3 entry points against a recogniser of the documented grammar; every digit slice over {0,1,r-2,r-1,r,255} for every radix.",
+    "Output: every value of the stated families x every radix 2..=36 (text) and 2..=256 (digit vectors) must be canonical syntax and evaluate by Horner (refint) to the value and parse back; 276 literal format specs (52 of them with a precision, which integer formatting ignores) x the 5 formatter traits the property names (Debug is run and counted, not required) against a padding reference validated against i128. Input: every string up to length 5 over a 12-symbol alphabet (and byte strings incl. invalid UTF-8) x 6 radices x both types x 3 entry points against a recogniser of the documented grammar; every digit slice over {0,1,r-2,r-1,r,255} for every radix.",
     "Values are structured families (dense small, r^k+-1 at every chunk boundary, patterns around the 64-digit threshold), not all integers.",
     "DESIGN.md 4/C06")
 chk("C07", "E-prod", PROD,
